@@ -15,12 +15,18 @@ import json
 import subprocess
 from concurrent.futures import ThreadPoolExecutor
 
+from harness import impl as I
 from harness.common import PY, VERIF, Model, Report, os, sx_bool, sx_str
+from harness.props.c01 import sig_case
 
 DISABLE = [None, "0", "1", "true", "false", "TRUE", ("lower", "1")]
 DEBUG = [None, "0", "1"]
 LEVELS = ["WARNING", "DEBUG"]
 EXTRA_DISABLE = ["yes", "off", "On", "n", "2", "maybe", ("lower", "no")]
+
+
+PROVIDER_CONFIGS = [("self_on_function", {"kind": "self", "scope": {"n": 5}}, False), ("self_on_method", {"kind": "self", "scope": {"n": 5}}, True),
+                    ("provider_object", {"kind": "free", "scope": {"n": 5}}, False), ("not_a_provider", {"kind": "free", "scope": "bad"}, False)]
 
 
 def probe(cfg) -> dict:
@@ -73,6 +79,29 @@ def run(tier: str, seed: int, rep: Report, model: Model) -> dict:
         for label, arg in (("default", "none"), ("True", "T"), ("False", "F")):
             en = model.ask(f"(enabled {sx_bool(gd)} {arg})") == "1"
             r = res[label]
+            # decorations naming a scope provider: the model's decorate / run_call on the same four configurations
+            for pname, prov, method in PROVIDER_CONFIGS:
+                got = r.get("providers", {}).get(pname)
+                want = {}
+                for shape in ((2, 5), (2, 6)):
+                    c = sig_case([("x", "a n")], [shape], provider=prov, dt="f32")
+                    c["params"][0]["hint"]["cls"] = "FloatTensor"
+                    c["enabled"] = en
+                    if method:
+                        c["method"] = True
+                    mo = I.parse_model_outcome(model.ask(I.fn_case_sx(c)))
+                    if mo["v"] == "decerr":
+                        want = {"decoration": mo["exn"]}
+                        break
+                    want["decoration"] = "identity" if mo["v"] == "identity" else "wrapped"
+                    want[str(shape)] = "accept" if mo["v"] in ("identity", "accept") else {"ScopeProvider": "DLTypeScopeProviderError", "Shape": "DLTypeShapeError"}.get(mo.get("kind"), mo.get("kind"))
+                rep.count(f"enabled_{en}:provider:{pname}:{(got or {}).get('decoration')}")
+                rr = {"enabled_arg": label, "decoration": pname, "effective_enabled": en, "observed": got, "model": want, **rec}
+                if got is None or any(got.get(k) != v for k, v in want.items()):
+                    rep.violation({"what": ("decorating with a scope provider: behaviour differs from the model" if en else
+                                            "disabled, yet decorating with a scope provider did not simply return the function (or a check ran)"), **rr})
+                elif not en and got.get("provider_consulted"):
+                    rep.violation({"what": "disabled, yet the scope provider was consulted", **rr})
             for kind in ("fn", "dc", "nt"):
                 want_identity = model.ask(f"(orig {kind} F {sx_bool(en)})") == "1"
                 rep.count(f"enabled_{en}:{kind}:identity_{r[kind + '_identity']}")
